@@ -289,17 +289,23 @@ Definition is_sign (c : Z) : bool := (c =? 43) || (c =? 45).
 Definition is_e (c : Z) : bool := (c =? 101) || (c =? 69).
 Definition DOT := 46.
 
+(* optional sign *)
+Definition take_sign (l : list Z) : bool * list Z :=
+  match l with c :: t => if is_sign c then (c =? 45, t) else (false, l) | [] => (false, l) end.
+
+(* optional decimal point followed by digits *)
+Definition take_frac (l : list Z) : list Z * list Z :=
+  match l with c :: t => if c =? DOT then span_digits t else ([], l) | [] => ([], l) end.
+
 Definition scan_float (l : list Z) : fscan :=
-  let '(neg, l1) := match l with c :: t => if is_sign c then (c =? 45, t) else (false, l) | [] => (false, l) end in
+  let '(neg, l1) := take_sign l in
   let '(ip, l2) := span_digits l1 in
-  let '(fp, l3) := match l2 with
-                   | c :: t => if c =? DOT then span_digits t else ([], l2)
-                   | [] => ([], l2) end in
+  let '(fp, l3) := take_frac l2 in
   let mant := negb (match ip ++ fp with [] => true | _ => false end) in
   match l3 with
   | c :: t =>
     if is_e c && mant then
-      let '(eneg, l4) := match t with s :: t' => if is_sign s then (s =? 45, t') else (false, t) | [] => (false, t) end in
+      let '(eneg, l4) := take_sign t in
       let '(ep, l5) := span_digits l4 in
       {| fs_neg := neg; fs_int := ip; fs_frac := fp; fs_sci := true; fs_eneg := eneg; fs_exp := ep; fs_rest := l5 |}
     else {| fs_neg := neg; fs_int := ip; fs_frac := fp; fs_sci := false; fs_eneg := false; fs_exp := []; fs_rest := l3 |}
@@ -343,7 +349,7 @@ Definition extract_real (l : list Z) : ext dec :=
 
 (* `is >> x` for an int (num_get::_M_extract_int, base 10): optional sign, digits; failbit on overflow *)
 Definition extract_int (l : list Z) : ext Z :=
-  let '(neg, l1) := match l with c :: t => if is_sign c then (c =? 45, t) else (false, l) | [] => (false, l) end in
+  let '(neg, l1) := take_sign l in
   let '(ds, rest) := span_digits l1 in
   match ds with
   | [] => ExtFail
